@@ -12,7 +12,9 @@ def scen(quick):
 def rule(quick, shards):
     return (f"{shards} shards x {16 if quick else 32} machine instances (48K; 128K with each bank 0..7 at 0xC000, both ROMs, paging locked), "
             "random encodings of all seven pages with PC, SP, HL, BC, DE, IX, IY, I and the port high byte placed in every 16K window; start "
-            "times from 12 classes (INT window, frame end, first/last contended T-state, inside/outside the 128-T window of a random line, uniform)")
+            "times from 12 classes (INT window, frame end, first/last contended T-state, inside/outside the 128-T window of a random line, uniform); a quarter "
+            "of the addresses on a window boundary, a third of the instructions from the 64 encodings with register-addressed internal / port cycles, "
+            "every other machine with an I/O extender claiming the ports with low byte 0xCC (half of the port instructions address one)")
 
 
 ASSUME = ["memory reads Base(seed, offset) everywhere (custom ROM pages, RAM filled through the CPU write path); cells written by "
